@@ -100,8 +100,12 @@ def label(e):
         if isinstance(e.get(k), dict):
             kids.append(label(e[k]))
     tag = c
-    if c in ("Chol", "Tri", "CholInverse", "CholDiag", "TriRepeat", "CholOf", "FactorTri"):
+    if c in ("Chol", "Tri", "CholInverse", "CholDiag", "TriRepeat", "CholOf", "FactorTri", "CholRw"):
         tag += "[upper]" if e["upper"] else "[lower]"
+    if c == "CholRw":
+        tag += "[%s]" % e["rw"]
+    if c == "Derived":
+        tag += "[%s after %s]" % (e["derive"], e["query"])
     if c == "KronAddedDiag":
         tag += "[%s]" % e["dk"]
     return tag + ("(" + ",".join(kids) + ")" if kids else "")
@@ -175,7 +179,57 @@ def build(e):
     if c == "FactorTri":
         # the factor operator itself (a triangular system)
         return build(e["base"]).cholesky(upper=e["upper"])
+    if c == "CholRw":
+        # a Cholesky-factor operator that went through a PUBLIC rewrite: the triangular factor then wraps non-dense data
+        tri_op = O.TriangularLinearOperator(e["t"].clone(), upper=e["upper"])
+        if e["rw"] == "mul":
+            return O.CholLinearOperator(tri_op, upper=e["upper"]) * e["c"].clone()
+        if e["rw"] == "adddiag":
+            return O.CholLinearOperator(tri_op + O.DiagLinearOperator(e["d"].clone()), upper=e["upper"])
+        if e["rw"] == "add_diagonal":
+            return O.CholLinearOperator(tri_op.add_diagonal(e["d"].clone()), upper=e["upper"])
+        raise ValueError(e["rw"])
+    if c == "Derived":
+        return derive(build(e["base"]), e)
     raise ValueError(c)
+
+
+def derive(op, e):
+    """a public derivation of an operator (the ones that may carry caches over from the parent)"""
+    import linear_operator.operators as O
+    k = e["derive"]
+    if k == "adddiag":
+        return op + O.DiagLinearOperator(e["d"].clone())
+    if k == "add_diagonal":
+        return op.add_diagonal(e["d"].clone())
+    if k == "jitter":
+        return op.add_jitter(1e-2)
+    if k == "mul":
+        return op * e["c"].clone()
+    if k == "expand":
+        return op.expand(3, *op.shape)
+    if k == "getitem":
+        return op[0]
+    if k == "mT":
+        return op.mT
+    raise ValueError(k)
+
+
+def derive_dense(a, e):
+    k = e["derive"]
+    if k in ("adddiag", "add_diagonal"):
+        return a + torch.diag_embed(e["d"])
+    if k == "jitter":
+        return a + 1e-2 * torch.eye(a.shape[-1], dtype=F64)
+    if k == "mul":
+        return a * e["c"]
+    if k == "expand":
+        return a.expand(3, *a.shape).clone()
+    if k == "getitem":
+        return a[0].clone()
+    if k == "mT":
+        return a.mT.clone()
+    raise ValueError(k)
 
 
 def bkron(a, b):
@@ -262,7 +316,19 @@ def dense(e):
     if c == "FactorTri":
         l = torch.linalg.cholesky(dense(e["base"]))      # the unique factor with a positive diagonal (plain torch)
         return l.mT.contiguous() if e["upper"] else l
+    if c == "CholRw":
+        f = chol_rw_factor(e)
+        return f.mT @ f if e["upper"] else f @ f.mT
+    if c == "Derived":
+        return derive_dense(dense(e["base"]), e)
     raise ValueError(c)
+
+
+def chol_rw_factor(e):
+    """the triangular factor the rewritten operator denotes (plain torch)"""
+    if e["rw"] == "mul":
+        return e["t"] * e["c"].sqrt()
+    return e["t"] + torch.diag_embed(e["d"])
 
 
 def kad_diag(e, n):
@@ -443,6 +509,11 @@ def opd_lit(e, bb, idx):
         return "(DPerm float %s)" % nat_list(p.tolist())
     if c == "CholOf":
         return "(DCholOf %s %s)" % (common.coq_bool(e["upper"]), opd_lit(e["base"], bb, idx))
+    if c == "CholRw":
+        # specified behaviour: a Cholesky-factor operator over the rewritten factor (the library reaches the fall-back of
+        # TriangularLinearOperator._cholesky_solve: two substitutions = the model's chol_solve)
+        t = member(chol_rw_factor(e), bb, idx)
+        return "(DChol %s %d%%N %s)" % (common.coq_bool(e["upper"]), t.shape[-1], mat_lit(t))
     if c == "FactorTri":
         # specified behaviour: substitution with the Cholesky factor of the dense matrix (computed by plain torch)
         t = member(dense(e), bb, idx)
@@ -484,7 +555,8 @@ def gen(rng, cls, n, kappa, obatch=(), **kw):
         return {"cls": "Sum", "ops": [{"cls": "Dense", "t": spd(rng, n, kappa, ob)}, {"cls": "Dense", "t": spd(rng, n, max(1.0, kappa / 10), ob)}]}
     if cls == "SumKron":
         sizes = kw["sizes"]
-        return {"cls": "SumKron", "ops": [gen(rng, "Kron", n, kappa, ob, sizes=sizes), gen(rng, "Kron", n, max(1.0, kappa / 10), ob, sizes=sizes)]}
+        return {"cls": "SumKron", "ops": [gen(rng, "Kron", n, kappa, ob, sizes=sizes, fcls=kw.get("fcls1")),
+                                          gen(rng, "Kron", n, max(1.0, kappa / 10), ob, sizes=sizes, fcls=kw.get("fcls2"))]}
     if cls == "ConstantMul":
         return {"cls": "ConstantMul", "base": {"cls": "Dense", "t": spd(rng, n, kappa, ob)}, "c": posvec(rng, 1, 0.5, 3.0, ob).reshape(ob)}
     if cls == "Toeplitz":
@@ -521,7 +593,8 @@ def gen(rng, cls, n, kappa, obatch=(), **kw):
     if cls == "KronAddedDiag":
         sizes = kw["sizes"]
         kk = kappa ** (1.0 / len(sizes))
-        ops = [{"cls": "Dense", "t": spd(rng, m, kk, ob)} for m in sizes]
+        fcls = kw.get("fcls") or ["Dense"] * len(sizes)
+        ops = [gen(rng, fc, m, kk, ob) for fc, m in zip(fcls, sizes)]
         nn = int(math.prod(sizes))
         if kw["dk"] == "const":
             return {"cls": cls, "ops": ops, "dk": "const", "c": posvec(rng, 1, 0.3, 2.0, ob)}
@@ -541,6 +614,15 @@ def gen(rng, cls, n, kappa, obatch=(), **kw):
         return {"cls": cls, "base": gen(rng, "Dense", n, kappa, kw.get("base_batch", ())), "rep": tuple(kw["rep"])}
     if cls in ("CholOf", "FactorTri"):
         return {"cls": cls, "base": gen(rng, kw["base"], n, kappa, ob, **kw.get("base_kw", {})), "upper": kw["upper"]}
+    if cls == "CholRw":
+        up = kw["upper"]
+        return {"cls": cls, "t": tri(rng, n, up, kappa, ob), "upper": up, "rw": kw["rw"],
+                "c": torch.tensor(rng.uniform(0.5, 3.0), dtype=F64), "d": posvec(rng, n, 0.5, 2.0, ob)}
+    if cls == "Derived":
+        base = gen(rng, kw["base"], n, kappa, ob, **kw.get("base_kw", {}))
+        nn = size(base)
+        return {"cls": cls, "base": base, "derive": kw["derive"], "query": kw["query"],
+                "d": posvec(rng, nn, 0.5, 2.0, ob), "c": torch.tensor(rng.uniform(0.5, 3.0), dtype=F64)}
     if cls == "Permutation":
         perms = []
         for _ in range(int(math.prod(ob)) if ob else 1):
